@@ -173,6 +173,12 @@ def predicate(op, il, mres, tag):
             return ("Relic.Props.C15.pinned_key_never_stale", "key 1 or an error",
                     "a request pinned to key id 1, overlapping a rotation and %s unpinned lookups, was served: %s" % (f[3], il))
         return None
+    if kind == "wpin":
+        kv = _kv(il)
+        if kv.get("sig") not in ("5101", "!"):
+            return ("Relic.Props.C15.pinned_key_never_stale", "signature by key id 1 (the id the handle holds) or an error",
+                    "the client signed with a handle for key id %s, the worker used another key: %s" % (kv.get("held"), il))
+        return None
     if kind == "cache":
         n = int(f[3])
         steps = f[4:4 + n]
